@@ -43,7 +43,7 @@ def UpdateAuth : List String := ["!exists"]
 def VerifyResponse : List String := ["err != nil"]
 def handleChallengePhase1 : List String := ["h.secretKeyMgr == nil", "config.SecretKeyEncrypted == \"\"", "err != nil"]
 def handleChallengePhase2 : List String := ["challenge == \"\"", "h.bruteForceProtector != nil", "!h.secretKeyMgr.VerifyResponse(config.SecretKeyEncrypted, challenge, req.ChallengeResponse)", "h.bruteForceProtector != nil", "h.bruteForceProtector != nil"]
-def handleHandshake : List String := ["s.authHandler == nil", "len(connPacket.Packet.Payload) > 0", "err := json.Unmarshal(connPacket.Packet.Payload, req); err != nil", "isControlConnection := req.ConnectionType != \"tunnel\"", "req.ConnectionType == \"\"", "isControlConnection", "existingConn != nil", "conn == nil", "enforcedProtocol == \"\"", "conn.RawConn != nil", "existingConn != nil", "conn == nil", "enforcedProtocol == \"\"", "conn.RawConn != nil", "err != nil", "concreteConn, ok := clientConn.(*ControlConnection); ok", "err := s.sendHandshakeResponse(clientConn, resp); err != nil", "isControlConnection && clientConn.IsAuthenticated() && clientConn.GetClientID() > 0", "oldConn != nil && oldConn.GetConnID() != clientConn.GetConnID()", "concreteConn, ok := clientConn.(*ControlConnection); ok", "err := s.clientRegistry.UpdateAuth(concreteConn.ConnID, clientConn.GetClientID(), concreteConn.UserID); err != nil", "s.connStateStore != nil", "conn != nil && conn.Protocol != \"\"", "err := s.connStateStore.RegisterConnection(s.Ctx(), stateInfo); err != nil", "supersededConnID != \"\"", "err := s.connStateStore.UnregisterConnection(s.Ctx(), supersededConnID); err != nil", "conn != nil && conn.Stream != nil", "handshakeHandler, ok := reader.(interface{ OnHandshakeComplete(clientID int64) }); ok", "isControlConnection && clientConn.IsAuthenticated() && clientConn.GetClientID() > 0"]
+def handleHandshake : List String := ["s.authHandler == nil", "len(connPacket.Packet.Payload) > 0", "err := json.Unmarshal(connPacket.Packet.Payload, req); err != nil", "isControlConnection := req.ConnectionType != \"tunnel\"", "req.ConnectionType == \"\"", "isControlConnection", "existingConn != nil", "conn == nil", "enforcedProtocol == \"\"", "conn.RawConn != nil", "existingConn != nil", "conn == nil", "enforcedProtocol == \"\"", "conn.RawConn != nil", "err != nil", "concreteConn, ok := clientConn.(*ControlConnection); ok", "err := s.sendHandshakeResponse(clientConn, resp); err != nil", "isControlConnection && clientConn.IsAuthenticated() && clientConn.GetClientID() > 0", "oldConn != nil && oldConn.GetConnID() != clientConn.GetConnID()", "s.connStateStore != nil", "err := s.connStateStore.UnregisterConnection(s.Ctx(), oldConn.GetConnID()); err != nil", "concreteConn, ok := clientConn.(*ControlConnection); ok", "err := s.clientRegistry.UpdateAuth(concreteConn.ConnID, clientConn.GetClientID(), concreteConn.UserID); err != nil", "s.connStateStore != nil", "conn != nil && conn.Protocol != \"\"", "err := s.connStateStore.RegisterConnection(s.Ctx(), stateInfo); err != nil", "conn != nil && conn.Stream != nil", "handshakeHandler, ok := reader.(interface{ OnHandshakeComplete(clientID int64) }); ok", "isControlConnection && clientConn.IsAuthenticated() && clientConn.GetClientID() > 0"]
 def removeConnectionLocked : List String := ["conn == nil", "conn.Stream != nil"]
 def unindexLocked : List String := ["indexed == conn"]
 end Cond
